@@ -479,7 +479,8 @@ def gen_run(r, cfg):
         rt["proto"] = r.choice([2, 3, 4, 5, 0, 1] if r.random() < 0.15 else [2, 3, 4, 5])
     if route == "savetxt":
         rt["io_fault"] = r.choice([None, None, 10, 40, 90, 200])
-        rt["ncols"] = r.choice([1, 1, 2])
+        rt["ncols"] = r.choice([1, 1, 2, 3])
+        rt["usecols"] = r.choice([None, None, [1, 0], [0], [1], [2, 0], [2, 1, 0], [0, 2]])
     if route not in ("pickle", "pickle_nested", "json", "str", "repr", "savetxt") and rt["chaos"] in ("restart", "fresh_process"):
         rt["chaos"] = r.choice(["none", "clear_lru", "clear_sympy"])  # in-memory copies do not survive a restart
     if route in ("str", "repr", "savetxt") and rt["chaos"] == "fresh_process" and custom:
@@ -498,6 +499,10 @@ def gen_run(r, cfg):
                 if t.endswith(sym):
                     base = sym
             late = {"k": "late_edit", "edit": {"k": "modify", "sym": base, "value": r.choice([7.0, 0.125, 42.0])}}
+            prev = [e for e in regop.get("edits", []) if e["k"] == "add" and e["sym"] == base and e.get("offset") is not None]
+            if prev and r.random() < 0.5:
+                # same scale, another zero point (remove + add is how an offset is changed; add alone overwrites)
+                late = {"k": "late_edit", "edit": dict(prev[-1], offset=float(prev[-1]["offset"]) + r.choice([1.5, -20.0]))}
     follows = []
     for _ in range(cfg["n_follow"]):
         f = r.choice(cfg["follow"])
@@ -512,7 +517,35 @@ def gen_run(r, cfg):
         if f == "unit_pow":
             fop["p"] = r.choice([2, -1, 0.5, 3])
         follows.append(fop)
-    return [{"k": "reg", **regop}, build] + ([late] if late else []) + [rt] + follows
+    extra = []
+    if r.random() < cfg.get("p_pre", 0.0):
+        # warm the original's memo layers before it is persisted (string cache, lru rules)
+        pool = TARGETS.get(dim, [unit])
+        if not custom:
+            pool = [t for t in pool if "code_" not in t] or [unit]
+        extra.append({"k": "pre_follow", "f": "to", "u": r.choice(pool + [unit])})
+    if custom and route not in ("str", "repr", "savetxt") and rt["chaos"] not in ("fresh_process", "new_interpreter") \
+            and r.random() < cfg.get("p_post", 0.0):
+        toks = [t for t in rw_tokens(unit) if t != "sqrt"]
+        if toks:
+            t = r.choice(toks)
+            base = t
+            for sym in CUSTOM_SYMS:
+                if t.endswith(sym):
+                    base = sym
+            pf = []
+            for _ in range(2):
+                f = r.choice(["to", "mul2", "mulself", "in_base", "str", "addself", "unit_roundtrip"])
+                fop = {"k": "follow", "f": f, "first": r.choice(["orig", "rest"])}
+                if f == "to":
+                    pool = TARGETS.get(dim, [unit])
+                    fop["u"] = r.choice(pool + [unit])
+                if f == "in_base":
+                    fop["sys"] = r.choice(SYSTEMS)
+                pf.append(fop)
+            extra.append({"k": "post_edit", "edit": {"k": "modify", "sym": base, "value": r.choice([5.0, 0.2, 11.0])},
+                          "follows": pf, "again": route in ("pickle", "pickle_nested", "json")})
+    return [{"k": "reg", **regop}, build] + ([late] if late else []) + extra + [rt] + follows
 
 
 def make_config(rng):
@@ -524,6 +557,8 @@ def make_config(rng):
         "n_follow": r.choice([2, 4, 6, 10]),
         "lru": r.choice([128, 128, 128, 2, 0, 8]),
         "p_late": r.choice([0.0, 0.15, 0.4]),
+        "p_pre": r.choice([0.0, 0.3]),
+        "p_post": r.choice([0.0, 0.25, 0.5]),
         "p_newint": 0.3 if os.environ.get("UNYTSIM_TIER") == "thorough" else 0.04,
     }
 
@@ -645,6 +680,9 @@ class Sim11:
         late = next((o for o in ops if o["k"] == "late_edit"), None)
         if late is not None and custom and apply_edit(reg, late["edit"]):
             self.fault("registry_edited_after_object_creation")
+        for pre in [o for o in ops if o["k"] == "pre_follow"]:
+            run_follow(dict(pre, k="follow"), Lineage(obj, reg), Lineage(obj, reg))
+            self.count("pre_follow")
         self.step_no = 2
         route = rt["route"]
         chaos = rt.get("chaos", "none")
@@ -740,6 +778,41 @@ class Sim11:
                 rr = run_follow(fop, rest, orig)
             outs.append([o, rr])
             self.check_o2(fop, o, rr, chaos)
+        post = next((o for o in ops if o["k"] == "post_edit"), None)
+        if post is not None and custom and rreg is not ur.default_unit_registry:
+            # the same edit through each lineage's own registry (one call if they share the table by
+            # construction, as after a shallow copy), then more follow-ups
+            ok = apply_edit(reg, post["edit"])
+            if rreg.lut is not reg.lut:
+                ok = apply_edit(rreg, post["edit"]) and ok
+            if ok:
+                self.fault("registries_edited_after_restore")
+                for j, fop in enumerate(post.get("follows", [])):
+                    self.step_no = 4 + len(follows) + j
+                    if fop.get("first") == "rest":
+                        rr = run_follow(fop, rest, orig)
+                        o = run_follow(fop, orig, rest)
+                    else:
+                        o = run_follow(fop, orig, rest)
+                        rr = run_follow(fop, rest, orig)
+                    outs.append([o, rr])
+                    self.check_o2(fop, o, rr, chaos + "+post_edit")
+                if post.get("again") and route in ("pickle", "pickle_nested", "json"):
+                    # the durable bytes have not changed: a second restore must give what the first one gave
+                    try:
+                        robj2, rreg2 = restore(payload, obj, reg, None)
+                        again2 = o1_describe(robj2, rreg2)
+                        d2 = rw.compare(after, again2)
+                    except Exception as e:
+                        if rw.harness_frame(e.__traceback__):
+                            raise
+                        d2 = ["raised:" + type(e).__name__]
+                    self.count("second_restore")
+                    if d2:
+                        self.violate("O1-second-restore-differs",
+                                     {"route": rt, "differs": d2[:10],
+                                      "note": "same bytes restored twice in one process, the first restored registry "
+                                              "edited in between"}, [route, ",".join(sorted(set(x.split(".")[-1] for x in d2)))[:60]])
         self.log.add({"o1": after, "follows": outs})
 
     def check_o1(self, before, after, rt, build):
@@ -823,7 +896,15 @@ class Sim11:
             # loadtxt has no registry argument: only default-registry data can round-trip by construction
             self.stats["skipped"] += 1
             return
-        cols = [x] if rt.get("ncols", 1) == 1 else [x, x + x]
+        ncols = rt.get("ncols", 1)
+        n = int(np.asarray(x.d).size)
+        # further columns carry OTHER units, so that a unit attached to the wrong column shows
+        extra = [unyt.unyt_array(np.arange(n, dtype="float64") + 1.0, "s" if str(x.units.dimensions) != "(time)" else "g"),
+                 unyt.unyt_array(np.arange(n, dtype="float64") * 0.5 + 2.0, "km/s")]
+        cols = [x] + extra[: max(0, ncols - 1)]
+        usecols = rt.get("usecols")
+        if usecols is not None and (ncols == 1 or any(c >= ncols for c in usecols)):
+            usecols = None
         cols_before = [rw.describe(c, Stub(orig.reg)) for c in cols]
         limit = rt.get("io_fault")
         fw = FaultyWriter(limit)
@@ -873,7 +954,11 @@ class Sim11:
                 with warnings.catch_warnings():
                     warnings.simplefilter("ignore")
                     dt = "complex" if build["dtype"].startswith("complex") else "float"
-                    loaded = unyt.loadtxt(path, dtype=dt)
+                    if usecols is not None:
+                        loaded = unyt.loadtxt(path, dtype=dt, usecols=tuple(usecols))
+                        self.fault("loadtxt_usecols")
+                    else:
+                        loaded = unyt.loadtxt(path, dtype=dt)
             except Exception as e:
                 if rw.harness_frame(e.__traceback__):
                     raise
@@ -885,6 +970,8 @@ class Sim11:
         if not isinstance(loaded, tuple):
             loaded = (loaded,)
         self.count("loadtxt")
+        if usecols is not None:
+            cols = [cols[c] for c in usecols]
         if len(loaded) != len(cols):
             self.violate("O3-loadtxt-columns", {"wrote": len(cols), "read": len(loaded)}, ["savetxt", "columns"])
             return
@@ -900,6 +987,7 @@ class Sim11:
             rest = rest or Lineage(l2, l2.units.registry)
         self.count("o1")
         o_lin = Lineage(unyt.unyt_array(np.asarray(cols[0].d, dtype="float64"), cols[0].units), orig.reg)
+        # (cols[0] is the written column that corresponds to the first loaded one, also under usecols)
         for i, fop in enumerate(follows):
             self.step_no = 4 + i
             if fop.get("first") == "rest":
